@@ -6,6 +6,8 @@
 (* pinned design, kept as a named deviation whose counterexample is a regression schedule.      *)
 EXTENDS Integers, Sequences, FiniteSets, TLC, Json
 CONSTANTS Producers, K, Shapes, MaxFaults, MaxCrashes, MaxIdxLoss, InlineAt, Interval, MBs,
+          SyncFlush,     \* TRUE: flush-on-ack (the default, KAFSCALE_PRODUCE_SYNC_FLUSH); FALSE: the reply does not wait for a flush and
+                         \* consumers see the in-memory tail (BufferedHighWatermark) — only C02 (assignment), C03, C04, C05 are claimed there
           FixRestore,    \* failed upload puts the drained batches back at the head of the buffer
           FixPublish,    \* empty flush publishes the last *durable* offset, not nextOffset-1
           FixMonotone,   \* store update is skipped when it would lower the watermark (serialised)
@@ -71,7 +73,7 @@ Append_(p, sh) ==
                      /\ stage' = [stage EXCEPT ![p] = "inline"]
                      /\ pc' = [pc EXCEPT ![p] = "upload"]
                 ELSE /\ mem' = [mem EXCEPT !.next = nx, !.buf = buf1]
-                     /\ pc' = [pc EXCEPT ![p] = IF DevNoFlushOnAck THEN "ackready" ELSE "appended"]
+                     /\ pc' = [pc EXCEPT ![p] = IF DevNoFlushOnAck \/ ~SyncFlush THEN "ackready" ELSE "appended"]
                      /\ stage' = [stage EXCEPT ![p] = "flush"]
                      /\ UNCHANGED <<art, segUp, idxUp>>
   /\ UNCHANGED <<up, rfail, restarted, s3seg, s3idx, storeNext, pubVal, faults, crashes, acked, hwReg, hwMax, lost>>
@@ -148,7 +150,7 @@ Publish(p) ==
   /\ Log([a |-> "Publish", p |-> p])
   /\ LET nv == IF FixMonotone /\ pubVal[p] + 1 < storeNext THEN storeNext ELSE pubVal[p] + 1 IN
        /\ storeNext' = nv /\ hwReg' = (hwReg \/ nv < storeNext) /\ hwMax' = IF nv > hwMax THEN nv ELSE hwMax
-  /\ pc' = [pc EXCEPT ![p] = IF stage[p] = "inline" THEN (IF DevNoFlushOnAck THEN "ackready" ELSE "appended") ELSE "ackready"]
+  /\ pc' = [pc EXCEPT ![p] = IF stage[p] = "inline" THEN (IF DevNoFlushOnAck \/ ~SyncFlush THEN "ackready" ELSE "appended") ELSE "ackready"]
   /\ stage' = [stage EXCEPT ![p] = "flush"]
   /\ UNCHANGED <<mem, up, rfail, restarted, s3seg, s3idx, req, art, segUp, idxUp, pubVal, sent, faults, crashes, acked, nextReg, lost>>
 Ack(p) ==
@@ -293,8 +295,10 @@ SegBatches == UNION {{[base |-> o.batches[j].base, cnt |-> o.batches[j].cnt] : j
                      o \in {x \in s3seg : \E i \in 1..Len(mem.segs) : mem.segs[i].base = x.base}}
 MemBatches(s) == {[base |-> s[j].base, cnt |-> s[j].cnt] : j \in 1..Len(s)}
 Ref == SegBatches \cup MemBatches(mem.fb) \cup MemBatches(mem.buf)
+\* the high watermark a consumer is shown: the store's next offset, raised to the in-memory tail when flush-on-ack is off
+FetchHW == IF SyncFlush \/ storeNext >= mem.next THEN storeNext ELSE mem.next
 ReadRec(o, mb) == LET r == ReadSpec(o, mb) IN
-   [o |-> o, mb |-> mb, hw |-> storeNext, kind |-> r.kind,
+   [o |-> o, mb |-> mb, hw |-> FetchHW, kind |-> r.kind,
     first |-> IF r.kind = "ok" THEN r.first ELSE -1, starts |-> IF r.kind = "ok" THEN r.starts ELSE {},
     aligned |-> TRUE, intact |-> TRUE]
 Reads == IF up THEN {ReadRec(o, mb) : o \in 0..(mem.next - 1), mb \in MBs} ELSE {}
